@@ -5,6 +5,7 @@ import random
 
 from .. import e2e, oracles, scenario
 from ..director import STREAM_KINDS
+from ..oracles import V
 
 PROPERTY = 'C03'
 LEVEL = 'fault_enumeration'
@@ -12,7 +13,7 @@ RULE = ('for every transfer type/mode (upload x 3 source kinds, download x 4 des
         'multipart/ranged) a fault-free dry run lists the boundary events (S3 calls, request-body reads, response-body reads, '
         'source reads, destination open/write/close/rename, on_queued, each on_progress); then one run per (event, '
         'before/after/mid effect, fault kind), plus retry-budget exhaustion per range and (thorough) pairs of faults; '
-        'fault kinds include the exception types the library itself defines (CancelledError = concurrent.futures.CancelledError, FatalError) raised by steps of a transfer that was never cancelled; NonThreadedExecutor and duck-typed subscriber bases; non-trivial = the planned fault was actually raised into library code and the outcome oracle compared result() '
+        'fault kinds include the exception types the library itself defines (CancelledError = concurrent.futures.CancelledError, FatalError) raised by steps of a transfer that was never cancelled; NonThreadedExecutor and duck-typed subscriber bases; the same for the process-pool downloader (fault per HeadObject / allocation / GetObject / write / rename, alone, with random yields, and with one thread held at a statement of the submitter / worker / monitor failure handling; a result() call made only after the failure was recorded is judged too); non-trivial = the planned fault was actually raised into library code and the outcome oracle compared result() '
         'with the raised-fault log; distinct = (scenario shape incl. fault site, interleaving signature)')
 ASSUMPTIONS = [
     'fault kinds are Exception subclasses, plus a small separate BaseException family that re-finds known finding F9',
@@ -198,11 +199,74 @@ def gen_cases(tier, seed):
                 cases.append({'seed': rng.randrange(1 << 30), 'config': dict(multipart_threshold=8 * MB, multipart_chunksize=5 * MB),
                               'transfers': [{'kind': 'upload', 'src': src, 'size': 11 * MB}], 'body_read_sizes': [65536],
                               'plan': {'faults': [dict(f, tag='FAULT-real')]}, 'wall_timeout': 120.0})
+    cases += procpool_cases(rng, quick)
     rng.shuffle(cases)
     return cases
 
 
+def procpool_cases(rng, quick):
+    """The same statement for the process-pool downloader (the real ProcessPoolDownloader object, submitter and workers as threads):
+    a fault in HeadObject / temp-file allocation / GetObject / write / rename, alone or with one thread held at a statement of the
+    submitter's / workers' / monitor's failure handling, must never end in result() returning normally."""
+    from .. import yieldinj
+    from . import c19
+
+    out = []
+    bl = [b for i, b in enumerate(c19.bases()) if (i % 3 == 0 or not quick)]
+    lines = [l for l in yieldinj.all_lines(['processpool.py'])
+             if l[2].startswith(('GetObjectSubmitter._do_run', 'GetObjectSubmitter._submit', 'GetObjectWorker._do_run', 'GetObjectWorker._do_get_object',
+                                 'GetObjectWorker._finalize', 'TransferMonitor.poll_for_result', 'TransferMonitor.notify_done',
+                                 'TransferMonitor.notify_exception', 'TransferMonitor.notify_job_complete', 'ProcessPoolTransferFuture.'))]
+    for base in bl:
+        keys, bodies, ok = c19.dry(base)
+        if not ok:
+            continue
+        for k in keys:
+            fl = []
+            if '/s3:' in k:
+                fl = [{'at': k, 'phase': 'before', 'kind': 'exc'}, {'at': k, 'phase': 'after', 'kind': 'client4xx'}]
+            elif '/fs:allocate' in k or '/fs:rename' in k or '/fs:write' in k or '/fs:open' in k:
+                fl = [{'at': k, 'phase': 'before', 'kind': 'oserror'}]
+            for f in fl:
+                variants = [None, {'p': 0.3}]
+                if not quick or '/fs:' in k or 'HeadObject' in k or rng.random() < 0.3:
+                    for line in (lines if not quick else rng.sample(lines, min(len(lines), 12))):
+                        variants.append({'p': 0.0, 'window': {'file': line[0], 'lineno': line[1], 'nth': 0,
+                                                              'name': f'{line[0]}:{line[1]}:{line[2]}', 'wait': 0.2}})
+                for y in variants:
+                    sp = copy.deepcopy(base)
+                    sp['seed'] = rng.randrange(1 << 30)
+                    sp['exit'] = rng.choice(['shutdown', 'with'])
+                    sp['family'] = 'procpool'
+                    sp['plan'] = {'faults': [dict(f, tag='FAULT-pp')]}
+                    if y:
+                        sp['yield'] = y
+                    out.append(sp)
+    return out
+
+
+def procpool_evaluate(obs):
+    viol = []
+    stats = {'success': 0, 'raised': 0, 'fault_hit': len(obs.world.director.raised), 'procpool_runs': 1,
+             'procpool_late_results': sum(1 for e in obs.events if e['kind'] in ('pp.late_result', 'pp.early_result'))}
+    for x in obs.xfers:
+        stats['success' if x.outcome == 'success' else 'raised'] += 1
+        mine = [r for r in obs.world.director.raised if r['key'].startswith(x.label + '/') and r['phase'] != 'body']
+        told = [('result()', x.outcome)] + [('another result() call', e['outcome']) for e in obs.events
+                                            if e['kind'] in ('pp.late_result', 'pp.early_result') and e.get('label') == x.label]
+        for who, outcome in told:
+            if mine and outcome == 'success':
+                f = mine[0]
+                viol.append(V(f'{x.label}: {who} returned normally although fault {f["tag"]} ({f["kind"]}) was raised at {f["key"]} '
+                              f'[{f["phase"]}] (process-pool downloader)', sym='false-success', front_end='procpool', fault_kind=f['kind']))
+                break
+    summary = {'outcomes': e2e.default_outcomes(obs), 'raised': [(r['key'], r['phase'], r['kind']) for r in obs.world.director.raised]}
+    return viol, stats, bool(obs.world.director.raised), summary
+
+
 def evaluate(obs):
+    if obs.spec.get('family') == 'procpool':
+        return procpool_evaluate(obs)
     viol = []
     stats = {'success': 0, 'raised': 0, 'fault_hit': 0, 'fault_missed': 0, 'counted_faults': 0, 'absorbed_faults': 0,
              'other_C05_violations': 0, 'other_C06_violations': 0}
